@@ -8,7 +8,8 @@ LEVEL = ("Mechanism level: Xor::execute's dispatch table (right branch runs iff 
          "Instruction::execute (every non-call child failure passes through set_errors with the same error and is "
          "returned unchanged; Call routes catchables through set_errors and returns uncatchables untouched), error "
          "objects and the final outcome take code and message from the same error via to_error_code/to_string, and the "
-         "error-setting flag tables. Message equality for every failure kind in every context is not decided.")
+         "error-setting flag tables. Message equality for every failure kind in every context is not decided."
+         " Added: a par whose branches both failed returns the recorded (left) error; every site re-enabling %last_error% recording re-enables :error: recording; no fresh error after disable_error_setting.")
 
 
 def check(ctx):
